@@ -4,9 +4,9 @@
 # listed.  Expected: exit 1 for every seed, except those whose meta.json says NOT REFUTED:
 #   exit 2 (no verdict; an added / split loop or a construct outside the rule templates, documented in DESIGN 8.3):
 #     C05-que-insert-backward-stale-num, C18-length-ascii-pair-overrun, C03-avl-post-tail-mirror-exit, C09-triU2-merged-loops-overrun,
-#     C08-plu-inv-unit-vector-transposed, C09-mulTT-zero-skip-wrong-stride
+#     C08-plu-inv-unit-vector-transposed, C09-mulTT-zero-skip-wrong-stride, C11-mean-sum-then-scale
 #   exit 0 (missed; rounding-level effects the exact-real reading cannot see, DESIGN 8.3 / 8.5):
-#     C11-acosh-near1-cancel, C13-cup-algebra-de-morgan
+#     C11-acosh-near1-cancel, C13-cup-algebra-de-morgan, C14-bell-ta-common-denominator-overflow
 # Nothing is written to /repo or to /verif/evidence.
 TIER=${1:-quick}
 cd /verif
